@@ -45,6 +45,7 @@ class Report:
         self.units: Dict[str, int] = {}
         self.rules: Dict[str, str] = {}
         self.extra: Dict[str, object] = {}
+        self.undecided_list: List[dict] = []
         self.t0 = time.time()
 
     # -- recording ---------------------------------------------------------
@@ -57,6 +58,21 @@ class Report:
 
     def note(self, text):
         self.notes.append(text)
+
+    def undecided(self, rule, why):
+        """the rule could not recognise the mechanism it is about in this tree: no verdict (never a violation)"""
+        self.undecided_list.append({"rule": rule, "why": str(why)[:300]})
+
+    def run(self, fn, *args, **kw):
+        """evaluate one rule family; a mechanism that is no longer recognisable leaves the rule undecided
+        (obligations recorded before that point stand)"""
+        from .source import AnalysisError
+
+        try:
+            return fn(*args, **kw)
+        except AnalysisError as e:
+            self.undecided(getattr(fn, "__name__", str(fn)), e)
+            return None
 
     def unit(self, kind, n=1):
         self.units[kind] = self.units.get(kind, 0) + n
@@ -143,6 +159,7 @@ def finish(report: Report, explanation: str, assumptions: List[str], trusted_bas
         "units": report.units,
         "samples": samples,
         "notes": report.notes[:40],
+        "undecided": report.undecided_list,
         "trusted_base": trusted_base,
         "checker_cmd": f"/venv/bin/python -m sa.check {report.prop} --tier {report.tier}",
         "exhaustive": True,
